@@ -12,6 +12,14 @@ mod stdlib;
 pub mod tree;
 mod typecheck;
 
+/// Verification hooks: direct access to the unifier (feature `verif` only).
+#[cfg(feature = "verif")]
+pub mod verif {
+    pub use crate::inference::tag::{FuncTag, Seq, Tag, TagId};
+    pub use crate::inference::unify::InferenceSet;
+    pub use crate::inference::union::{reduce, UnionFind};
+}
+
 #[cfg(test)]
 mod compile_tests;
 #[cfg(test)]
